@@ -6,6 +6,7 @@ import (
 	"sort"
 	"strconv"
 	"strings"
+	"time"
 
 	"rcproxy/core"
 	"rcproxy/core/codec"
@@ -50,7 +51,21 @@ func (v *routeView) Gen(r *Rng, i int) string {
 	if r.Chance(1, 5) {
 		noslave = 1
 	}
-	return fmt.Sprintf("route noslave=%d | %s | %d %d %d", noslave, topo.String(), typ, r.Intn(16384), r.Intn(1<<30))
+	// auto-ban state of some replica pools: p = banned and the lift time has passed (skipped until the monitor
+	// clears the flag), f = banned with the lift time still ahead (picked up again, flag cleared)
+	var bans []string
+	if r.Chance(1, 3) {
+		for _, p := range topo.pools {
+			if p.slave && r.Chance(1, 2) {
+				bans = append(bans, hx([]byte(p.addr))+":"+[]string{"p", "f"}[r.Intn(2)])
+			}
+		}
+	}
+	ban := "-"
+	if len(bans) > 0 {
+		ban = strings.Join(bans, ",")
+	}
+	return fmt.Sprintf("route noslave=%d ban=%s | %s | %d %d %d", noslave, ban, topo.String(), typ, r.Intn(16384), r.Intn(1<<30))
 }
 
 func (v *routeView) Exec(line string) (string, string, []string) {
@@ -64,6 +79,26 @@ func (v *routeView) ExecModel(line string) (out string, oracle string, tags []st
 		return "bad-op", "", nil, line
 	}
 	noslave := strings.Contains(parts[0], "noslave=1")
+	skipped, readmit := map[string]bool{}, map[string]bool{}
+	for _, tok := range strings.Fields(parts[0]) {
+		if strings.HasPrefix(tok, "ban=") && tok != "ban=-" {
+			for _, it := range strings.Split(strings.TrimPrefix(tok, "ban="), ",") {
+				kv := strings.Split(it, ":")
+				if len(kv) != 2 {
+					return "bad-op", "", nil, line
+				}
+				a, err := unhx(kv[0])
+				if err != nil {
+					return "bad-op", "", nil, line
+				}
+				if kv[1] == "p" {
+					skipped[string(a)] = true
+				} else {
+					readmit[string(a)] = true
+				}
+			}
+		}
+	}
 	topo, err := parseTopo(parts[1])
 	q := strings.Fields(parts[2])
 	if err != nil || len(q) != 3 {
@@ -87,6 +122,18 @@ func (v *routeView) ExecModel(line string) (out string, oracle string, tags []st
 	for _, rg := range topo.ranges {
 		env.env.SetReplicaset(rg.master, rg.slaves, [][2]int32{{int32(rg.lo), int32(rg.hi)}})
 	}
+	for a := range skipped {
+		if p, ok := core.EngineGlobal.ProxyPool[a]; ok {
+			p.AutoBanFlag = true
+			p.LiftBanTime = time.Now().Add(-time.Hour)
+		}
+	}
+	for a := range readmit {
+		if p, ok := core.EngineGlobal.ProxyPool[a]; ok {
+			p.AutoBanFlag = true
+			p.LiftBanTime = time.Now().Add(time.Hour)
+		}
+	}
 	rand.Seed(int64(seed))
 	addr, isSlave, cands := server.VerifRoute(env.handler, codec.Command(typ), int32(slot))
 	draw := 0
@@ -99,7 +146,17 @@ func (v *routeView) ExecModel(line string) (out string, oracle string, tags []st
 		hc = append(hc, hx([]byte(c)))
 	}
 	out = fmt.Sprintf("addr=%s slave=%d cands=%s", hx([]byte(addr)), b2i(isSlave), strings.Join(hc, ","))
-	modelLine = fmt.Sprintf("route noslave=%d | %s | %d %d %d", b2i(noslave), topo.String(), typ, slot, draw)
+	// the model's "has a pool" is "is a candidate": a skipped (banned, lift time passed) replica is handed to the
+	// model as a replica without a pool
+	mtopo := *topo
+	mtopo.pools = nil
+	for _, p := range topo.pools {
+		if p.slave && skipped[p.addr] {
+			continue
+		}
+		mtopo.pools = append(mtopo.pools, p)
+	}
+	modelLine = fmt.Sprintf("route noslave=%d | %s | %d %d %d", b2i(noslave), mtopo.String(), typ, slot, draw)
 	// ---- oracle ----
 	tags = []string{"dom:C04", "dom:C20"}
 	name := codec.CommandType2Str[codec.Command(typ)]
@@ -117,9 +174,15 @@ func (v *routeView) ExecModel(line string) (out string, oracle string, tags []st
 	}
 	var healthy []string
 	for _, a := range sl {
-		if topo.hasPool(a) {
+		if topo.hasPool(a) && !skipped[a] {
 			healthy = append(healthy, a)
 		}
+	}
+	if len(skipped) > 0 {
+		tags = append(tags, "replica-banned")
+	}
+	if len(readmit) > 0 {
+		tags = append(tags, "replica-readmitted")
 	}
 	isRead := !noslave && refReadOnly[name] && !refScan[name] && codec.Command(typ) < codec.ReqWriteCmdStart
 	if isRead {
